@@ -7,9 +7,11 @@ import Grass.Interner
   of what a compilation may do with identifiers and ids (Grass/Interner.lean).  They say: as long
   as identifiers are used only through key equality, `resolve` and insertion-ordered iteration,
   and ids only through equality, the output is the same after every history, for every initial
-  counter value and for every interleaving with other threads.  The two known leaks (key-ordered
+  counter value and for every interleaving with other threads.  The two kinds of leak (key-ordered
   and hash-ordered iteration reaching the output, D13) are modelled by `ordered true` and
-  `hashed π` and shown to break the property (`C02_asFound_…`).  That the *whole* compiler is a
+  `hashed π` and shown to break the property (`C02_asFound_…`); named arguments and merged member
+  views were repaired in /repo (adef70c, d156cce: the `now` variants are the insertion-ordered
+  ones), module member maps and `with` configurations are still key-ordered.  That the *whole* compiler is a
   pure function (`C02_full`) is tested, not proved: tools/props/c02.py runs real grass after
   adversarial histories, on concurrent threads and in fresh processes.
 -/
@@ -597,35 +599,55 @@ theorem foldr_intern_disciplined (k : Prog) (hk : k.disciplined = true) : ∀ (n
   | nil => exact hk
   | cons s ss ih => simpa [Prog.disciplined] using ih
 
-/-- With insertion-ordered iteration (`byKey = false`, what dart-sass does) `keywords()` lists the
-    names in the same order after every history. -/
+/-- **The code as it stands** (`byKey = false`: named arguments in an `IndexMap`, fix adef70c):
+    `keywords()` lists the names in the same order after every history. -/
 theorem C02_keywords_insertionOrder_history_independent (names h₁ h₂ : List Str) :
     compile (keywordsProg false names) (internAll [] h₁) [] =
     compile (keywordsProg false names) (internAll [] h₂) [] :=
   C02_history_independent _ (foldr_intern_disciplined _ (by simp [Prog.disciplined]) names) h₁ h₂ []
 
-/-- As found (`byKey = true`: `BTreeMap<Identifier, _>`, arglist.rs:12): one program, two
-    histories, two different outputs — the model of known finding D13(a). -/
+/-- Key-ordered iteration (`byKey = true`: `BTreeMap<Identifier, _>`): one program, two histories,
+    two different outputs.  This was `keywords()` on the pinned tree (D13 a1, repaired by adef70c)
+    and is still `meta.module-variables()` of a module's own members (D13 a3, `moduleMembersProg true`). -/
 theorem C02_asFound_orderedIterate_history_dependent :
     ∃ (names h₁ h₂ : List Str),
       compile (keywordsProg true names) (internAll [] h₁) [] = some ["zq", "yq"] ∧
       compile (keywordsProg true names) (internAll [] h₂) [] = some ["yq", "zq"] :=
   ⟨["zq", "yq"], [], ["yq", "zq"], by decide, by decide⟩
 
-/-- As found for “No arguments named …” (args.rs:93 `BTreeSet<Identifier>`). -/
+/-- Pinned-tree variant of “No arguments named …” (args.rs `BTreeSet<Identifier>`, D13 a2, repaired
+    by adef70c); the last conjunct is the code as it stands. -/
 theorem C02_asFound_unknownNames_history_dependent :
     unknownNames true (internAll [] []) ["a"] ["a", "zq", "yq"] = some ["zq", "yq"] ∧
     unknownNames true (internAll [] ["yq", "zq"]) ["a"] ["a", "zq", "yq"] = some ["yq", "zq"] ∧
     unknownNames false (internAll [] ["yq", "zq"]) ["a"] ["a", "zq", "yq"] = some ["zq", "yq"] := by
   decide
 
-/-- As found (`HashSet<Identifier>`, map_view.rs:262): one program, one history, two hasher
-    states, two different outputs — the model of known finding D13(b). -/
+/-- Pinned-tree variant (`HashSet<Identifier>` in `MergedMapView`, D13 b, repaired by d156cce):
+    one program, one history, two hasher states, two different outputs. -/
 theorem C02_asFound_hashIterate_perm_dependent :
     ∃ (names : List Str) (π₁ π₂ : List Nat),
       π₁.Perm (List.range names.length) ∧ π₂.Perm (List.range names.length) ∧
       compile (mergedKeysProg π₁ names) [] [] ≠ compile (mergedKeysProg π₂ names) [] [] :=
   ⟨["zq", "yq"], [0, 1], [1, 0], by decide, by decide, by decide⟩
+
+/-- As the code stands: the own members of a module are listed in key order, so the listing depends
+    on the thread's history (known finding D13 a3) — and so does which variable a `with` error
+    names (D13 a4). -/
+theorem C02_asFound_moduleMembers_history_dependent :
+    compile (moduleMembersProg true ["zq", "yq"]) (internAll [] []) [] = some ["zq", "yq"] ∧
+    compile (moduleMembersProg true ["zq", "yq"]) (internAll [] ["yq", "zq"]) [] = some ["yq", "zq"] ∧
+    configFirst true (internAll [] []) ["zq", "yq"] = some "zq" ∧
+    configFirst true (internAll [] ["yq", "zq"]) ["zq", "yq"] = some "yq" := by
+  decide
+
+/-- With insertion order both would be history-independent (what a repair has to achieve). -/
+theorem C02_moduleMembers_insertionOrder_history_independent (names h₁ h₂ : List Str) :
+    compile (moduleMembersProg false names) (internAll [] h₁) [] =
+    compile (moduleMembersProg false names) (internAll [] h₂) [] ∧
+    configFirst false (internAll [] h₁) names = configFirst false (internAll [] h₂) names := by
+  have h := C02_keywords_insertionOrder_history_independent names h₁ h₂
+  exact ⟨h, by unfold configFirst; rw [h]⟩
 
 theorem filterMap_getElem?_range {α} (xs : List α) :
     (List.range xs.length).filterMap (xs[·]?) = xs := by
